@@ -181,7 +181,7 @@ func TestReproDotNamesPackaged(t *testing.T) {
 // only, and validateName works on the raw name. The archive then either cannot
 // be loaded or loads without the dependency.
 func TestReproNestedNameCollapsesAfterSanitizing(t *testing.T) {
-	for _, n := range []string{"\x01.\x02.", "..\x01", "​"} {
+	for _, n := range []string{"\x01.\x02.", "..\x01", "\u200b"} {
 		d := tmp(t)
 		root := &chart.Chart{Metadata: &chart.Metadata{APIVersion: "v2", Name: "root", Version: "0.1.0"}}
 		root.AddDependency(&chart.Chart{Metadata: &chart.Metadata{APIVersion: "v2", Name: n, Version: "0.1.0"}})
